@@ -117,6 +117,8 @@ def check_function(fn, program, L, unknown_classes=None):
                     prob("bad-branch-target", "false", f"conditional branch %{ins.Reference} false target {f!r} is not a block of the function")
             elif f is not None and (not isinstance(f, L.BasicBlock) or f.Reference not in block_refs):
                 prob("bad-branch-target", "false-unconditional", f"branch %{ins.Reference} false target {f!r}")
+        if isinstance(ins, L.ReturnInstruction) and ins.Value is None and not fn.Type.ReturnType.IsVoid():
+            prob("missing-operand", "ReturnInstruction.value", f"return %{ins.Reference} of a non-void function has lost its value operand")
         if isinstance(ins, L.CallInstruction) and program is not None:
             tgt = program.Functions.get(ins.Function)
             if tgt is None:
